@@ -1678,26 +1678,28 @@ class MeshRegion:
 
         # Get distances from contours
         while True:
+            # The distance along a contour is measured from the first point of its
+            # FineContour, which can lie before the start of the contour. For the first
+            # region this offset was removed above, for the following regions remove it
+            # here so that the distance is continuous across the region boundary.
             for i in range(self.nx):
                 c = region.contours[2 * i + 1]
+                d = numpy.array(c.get_distance(psi=self.meshParent.equilibrium.psi))
+                if region is not self:
+                    d = d - d[c.startInd]
                 # Cell-centre points
-                region.poloidal_distance.centre[i, :] += c.get_distance(
-                    psi=self.meshParent.equilibrium.psi
-                )[1::2]
+                region.poloidal_distance.centre[i, :] += d[1::2]
                 # ylow points
-                region.poloidal_distance.ylow[i, :] += c.get_distance(
-                    psi=self.meshParent.equilibrium.psi
-                )[::2]
+                region.poloidal_distance.ylow[i, :] += d[::2]
             for i in range(self.nx + 1):
                 c = region.contours[2 * i]
+                d = numpy.array(c.get_distance(psi=self.meshParent.equilibrium.psi))
+                if region is not self:
+                    d = d - d[c.startInd]
                 # Cell-centre points
-                region.poloidal_distance.xlow[i, :] += c.get_distance(
-                    psi=self.meshParent.equilibrium.psi
-                )[1::2]
+                region.poloidal_distance.xlow[i, :] += d[1::2]
                 # ylow points
-                region.poloidal_distance.corners[i, :] += c.get_distance(
-                    psi=self.meshParent.equilibrium.psi
-                )[::2]
+                region.poloidal_distance.corners[i, :] += d[::2]
 
             next_region = region.getNeighbour("upper")
             if (next_region is None) or (next_region is self):
